@@ -59,13 +59,8 @@ type memScript struct {
 }
 
 // directValue: values of in-memory cases are direct objects (the value lives
-// across several files); valueObj's indirect kind becomes a big integer.
-func directValue(vid int) pdf.Object {
-	if vid%5 == 4 {
-		return pdf.Integer(1_000_000 + vid)
-	}
-	return valueObj(vid, nil)
-}
+// across several files); value id 0 is the null object.
+func directValue(vid int) pdf.Object { return valueObj(vid, nil, nil) }
 
 // observeMem replays a script; one observation per write (the first use, if
 // it is a write, and one after every edit).  exp may be nil (replay).
@@ -84,7 +79,7 @@ func observeMemK[K cmp.Ordered](s spec, api treeAPI[K], exp *memScript) ([]*obse
 	keys := genKeys(s.Num, s.Style, s.N, rng)
 	oracle := map[ckey]int{} // the harness's own copy of the map: key -> value id
 	for i, k := range keys {
-		oracle[k] = i + 1 // KeyTreeMem!InitMap
+		oracle[k] = i // KeyTreeMem!InitMap: the least key carries the null object
 	}
 	sorted := func() []ckey {
 		ks := make([]ckey, 0, len(oracle))
